@@ -1,10 +1,10 @@
 #!/bin/sh
-# tools/collect_seed.sh <PID>...  move delivered mutants from /tmp/seeded-out/<PID>/m<k> to /verif/seeded/<PID>-m<k> and drop the agent's worktree
+# tools/collect_seed.sh <PID>...  move delivered mutants from /tmp/seeded-out/<PID>/m<k> to /verif/seeded/<PID>-m<next free index> and drop the agent's worktree
 for p in "$@"; do
   for d in /tmp/seeded-out/$p/m*; do
     [ -d "$d" ] || continue
-    k=$(basename $d); dst=/verif/seeded/$p-$k
-    n=1; while [ -e "$dst" ]; do n=$((n+1)); dst=/verif/seeded/$p-${k}b$n; done
+    n=1; while [ -e "/verif/seeded/$p-m$n" ]; do n=$((n+1)); done
+    dst=/verif/seeded/$p-m$n
     mkdir -p $dst && cp $d/* $dst/ && echo "collected $dst"
   done
   git -C /repo worktree remove --force /tmp/wt/$p 2>/dev/null; rm -rf /tmp/wt/$p /tmp/seeded-out/$p
